@@ -14,7 +14,6 @@ import (
 	"encoding/json"
 	"fmt"
 	"os"
-	"runtime/pprof"
 	"strings"
 
 	"verif/engine/runlib"
@@ -236,11 +235,6 @@ func main() {
 		}
 
 		checkComplete(c, repoDir())
-		if pf := os.Getenv("C01_CPUPROFILE"); pf != "" {
-			f, _ := os.Create(pf)
-			_ = pprof.StartCPUProfile(f)
-			defer pprof.StopCPUProfile()
-		}
 		generate(r)
 	})
 }
